@@ -49,21 +49,31 @@ func (t *TTYFrontend) SetTerminal(term Terminal) {
 // Attach starts updating the provided region.
 func (t *TTYFrontend) Attach(r Region) {
 	t.mu.Lock()
-	defer t.mu.Unlock()
+	term := t.term
+	t.mu.Unlock()
 
-	t.region = r
-	t.attached = true
-	if !t.showCur {
-		t.showCur = true
+	attach := func() {
+		t.mu.Lock()
+		defer t.mu.Unlock()
+
+		t.region = r
+		t.attached = true
+		if !t.showCur {
+			t.showCur = true
+		}
+
+		if t.term == nil {
+			return
+		}
+		t.renderRegionLocked(t.region)
 	}
-
-	if t.term == nil {
+	if term == nil {
+		attach()
 		return
 	}
-
-	t.term.WithLock(func() {
-		t.renderRegionLocked(t.region)
-	})
+	// Callbacks arrive with the terminal lock held and then take t.mu, so the
+	// terminal lock has to be taken first here as well.
+	term.WithLock(attach)
 }
 
 // Detach stops updating the attached region.
@@ -168,10 +178,11 @@ func (t *TTYFrontend) renderRegionLocked(r Region) {
 }
 
 func (t *TTYFrontend) renderCursorLocked() {
-	if t.term == nil || t.out == nil {
+	if t.term == nil || t.out == nil || !t.attached {
+		// detached: the screen is not ours to touch
 		return
 	}
-	if !t.attached || !t.showCur || !t.focused {
+	if !t.showCur || !t.focused {
 		_, _ = t.out.Write([]byte(ansiCursorHide))
 		return
 	}
